@@ -53,8 +53,8 @@ CLAIMS = {
    note=COMMON_NOTE + "Assumed: backend SMTPError values carry a 4xx/5xx code, an enhanced code of the same class and clean text; error texts and mechanism names supplied by the backend are clean; Server.Domain is clean. Not decided: reply order under segmentation below bufio (inherited from the ReadLine stub); the stale-result race of the BDAT goroutine (C20).",
    design="3.C04", technique=T + "; call-site preconditions on the single reply writer"),
  "C11": dict(
-   text="Deductive proof of the flow and refusal halves: at the real Session.Mail / Session.Rcpt call sites the mailbox is the value returned by the path parser for this line (and the parser and the parameter splitter reported no error), the options object is new, and every option field equals the decoded value of the parameter present on the line or is zero when the parameter is absent (SIZE, SMTPUTF8, REQUIRETLS, BODY, RET, ENVID, AUTH presence, NOTIFY element by element, ORCPT type and address, RRVS time), only known parameters were present, each present parameter was well-formed (SIZE numeric, BODY/RET from the fixed sets, ENVID/ORCPT xtext decodable and printable, NOTIFY from the four keywords, none twice, NEVER alone) - loop invariants over the Go map iteration (visited-set ghost), checked for every path through the parameter switches; refusals are 5xx (4xx only for the recipient limit) with unchanged callback counters (shared with C03); parameters of disabled extensions are refused (shared with C12). decodeTypedAddress and checkNotifySet are proved against specifications written from RFC 3461 4.1/4.2.",
-   note=COMMON_NOTE + "BOUNDED stand-ins, labelled bounded in the evidence and never counted among the proved obligations (the functions are out of the verifier's reach: regexp engine; no inductive spec of the RFC 5321 grammar was written): (1) the real MAIL/RCPT handlers on every string of length <= 7 (thorough: 8) over 13 syntactically significant characters against a reference Path grammar written from RFC 5321 4.1.2 (valid / definitely invalid / unspecified, one obligation per kind of disagreement; 8 open known findings: leniency about dots, hyphens and the source route); (2) decodeXtext / decodeUTF8AddrXtext against reference decoders from RFC 3461 / 6533 on all strings of <= 5 symbols; (3) the real handlers on MAIL FROM:<a@b> / RCPT TO:<a@b> followed by every concatenation of <= 5 (thorough: 6) tokens out of 16 per command against a reference that computes the expected option values from the extension RFCs (accepted lines compared field by field, malformed ones must be refused; 1 open known finding: RRVS action not examined, pinned by an existing test). NOT decided at all: repeated keywords, extra blanks, time.Parse as RFC 3339 reference, anything beyond the stated bounds.",
+   text="Deductive proof of the flow and refusal halves: at the real Session.Mail / Session.Rcpt call sites the mailbox is the value returned by the path parser for this line (and the parser and the parameter splitter reported no error), the options object is new, and every option field equals the decoded value of the parameter present on the line or is zero when the parameter is absent (SIZE, SMTPUTF8, REQUIRETLS, BODY, RET, ENVID, AUTH presence, NOTIFY element by element, ORCPT type and address, RRVS time), only known parameters were present, each present parameter was well-formed (SIZE numeric, BODY/RET from the fixed sets, ENVID/ORCPT xtext decodable and printable, NOTIFY from the four keywords, none twice, NEVER alone) - loop invariants over the Go map iteration (visited-set ghost), checked for every path through the parameter switches; refusals are 5xx (4xx only for the recipient limit) with unchanged callback counters (shared with C03); parameters of disabled extensions are refused (shared with C12). decodeTypedAddress and checkNotifySet are proved against specifications written from RFC 3461 4.1/4.2. The hand-written path parser (parseReversePath, parsePath, parseMailbox, parseLocalPart) is under functional contract for every input, octet by octet: the input is consumed from the front, an unquoted mailbox is handed on literally as the text between the brackets, it holds no special, blank, closing bracket or control octet, a quoted-string ends at its closing quote (recursive spec function for the escapes), a path is refused only for its mailbox or a missing closing bracket, and every mailbox of the shape ltext+ @ dtext+ / address literal / quoted local part with content is accepted (completeness posts with the existential in the hypothesis; ltext/dtext are supersets of the RFC alphabets, written from the RFCs); at the handlers the parser is given the rest of this line. The regexp callbacks of the DSN value decoders are proved against the RFC 3461 hexchar and the RFC 6533 HEXPOINT table under the stated assumption about what the regexp engine hands them.",
+   note=COMMON_NOTE + "BOUNDED stand-ins, labelled bounded in the evidence and never counted among the proved obligations (kept beside the deductive contracts: they judge what the contracts leave open - placement of dots and hyphens, source routes, the composition of regexp engine and callbacks): (1) the real MAIL/RCPT handlers on every string of length <= 7 (thorough: 8) over 13 syntactically significant characters against a reference Path grammar written from RFC 5321 4.1.2 (valid / definitely invalid / unspecified, one obligation per kind of disagreement; 8 open known findings: leniency about dots, hyphens and the source route); (2) decodeXtext / decodeUTF8AddrXtext against reference decoders from RFC 3461 / 6533 on all strings of <= 5 symbols; (3) the real handlers on MAIL FROM:<a@b> / RCPT TO:<a@b> followed by every concatenation of <= 5 (thorough: 6) tokens out of 16 per command against a reference that computes the expected option values from the extension RFCs (accepted lines compared field by field, malformed ones must be refused; 1 open known finding: RRVS action not examined, pinned by an existing test). ASSUMED (listed in trusted_base): the naming clauses of decodeXtext / decodeUTF8AddrXtext (assumes clauses: the regexp engine replaces every match by what the callback returns), the precondition of the callbacks, the rec-func companion fact of qscan. NOT decided at all: paths with a source route beyond 'skipped up to the colon', an empty quoted local part, repeated keywords, extra blanks, time.Parse as RFC 3339 reference, anything beyond the stated bounds.",
    design="3.C11", technique=T + "; loop invariants over map iteration with a visited-set ghost"),
  "C20": dict(
    text="(a) Ownership obligations, one per access, discharged by the generator's must-hold lockset dataflow over go/ssa (not SMT): Server.listeners/conns only under Server.locker, Conn.closed only under Conn.locker, and the transaction fields dataResult, bdatStatus, recipients, fromReceived, bytesReceived, errCount, binarymime, didAuth, text, lineLimitReader touched only by code that is not reachable from any goroutine other than the command loop (closures started with go, Server.Close, Server.Shutdown are the other thread roots) - a sufficient condition for the absence of data races on those fields; and the calls of Session.Logout and PipeWriter.CloseWithError in Conn.Close and of Session.Logout in handleStartTLS lie inside a critical section of Conn.locker (looking at the session, logging it out and forgetting it is atomic, so overlapping closes log out once). (b) Deductive proof of the sequential kernel: a second Close/Shutdown returns ErrServerClosed, the first one closes the done channel, Close closes every registered connection whatever the listeners return (loop invariant over the map iteration), Serve never returns a temporary Accept error and its back-off stays within [0, 1s] (so no overflow after any run of temporary errors); the BDAT/LMTP delivery goroutines use the values captured at start (call-site and receive-site obligations shared with C04/C13).",
